@@ -24,6 +24,13 @@ const (
 	// oNilPlan is a stage level outcome too: Plan() returns nil (as lindb's shard scan stage does for a shard without a
 	// data family in the query range): nothing to execute, the stage succeeds at once and plans its next stages.
 	oNilPlan = "nil-plan"
+	// Stage level outcomes of the registration families: the stage panics while the pipeline REGISTERS it, i.e. inside
+	// the state machine's executeStage (pending is already incremented, the pipeline's own completing defer for the
+	// stage is not installed yet).  oIdentPanic: Stage.Identifier() panics.  oTypedNil: the stage is handed to the
+	// pipeline (as root, or by its parent's NextStages()) as a typed nil pointer: `stage == nil` is false for it and
+	// Identifier() dereferences the nil receiver (a real runtime error).  Plan() of such a stage is never reached.
+	oIdentPanic = "ident-panic"
+	oTypedNil   = "typed-nil"
 )
 
 var failOutcomes = []string{oErr, oNFPlain, oErrIgnore, oPanicStr, oPanicErr, oPanicVal, oPanicRT}
@@ -58,9 +65,13 @@ type stageSpec struct {
 	// Shaping of the schedule (legal for the property, which holds for every completion order): the stage's Complete()
 	// callback - called by the state machine under its mutex - first waits until the stage HookWaitStage-1 has entered
 	// its completion/error handler (0: nobody), then sleeps HookDelayUs microseconds.
-	HookWaitStage int          `json:"hook_waits_for_stage_plus1,omitempty"`
-	HookDelayUs   int          `json:"hook_delay_us,omitempty"`
-	Children      []*stageSpec `json:"children,omitempty"`
+	HookWaitStage int `json:"hook_waits_for_stage_plus1,omitempty"`
+	HookDelayUs   int `json:"hook_delay_us,omitempty"`
+	// IdentPanic: Identifier() panics (called by the state machine while it registers the stage).
+	IdentPanic bool `json:"ident_panic,omitempty"`
+	// TypedNil: the stage object handed to the pipeline is a typed nil pointer.
+	TypedNil bool         `json:"typed_nil,omitempty"`
+	Children []*stageSpec `json:"children,omitempty"`
 }
 
 // treeSpec is one generated case.
@@ -107,6 +118,12 @@ func (t *treeSpec) canon() string {
 		if s.CompletePanic {
 			sb.WriteString("!complete")
 		}
+		if s.IdentPanic {
+			sb.WriteString("!ident")
+		}
+		if s.TypedNil {
+			sb.WriteString("!typednil")
+		}
 		if s.HookWaitStage > 0 || s.HookDelayUs > 0 {
 			fmt.Fprintf(&sb, "~w%d~d%d", s.HookWaitStage, s.HookDelayUs/500)
 		}
@@ -134,7 +151,7 @@ func hashKey(parts ...string) string {
 
 // stageFails reports whether the spec of the stage makes it fail (when it runs at all).
 func (s *stageSpec) stageFails() bool {
-	if s.PlanPanic || s.NextPanic || s.CompletePanic {
+	if s.PlanPanic || s.NextPanic || s.CompletePanic || s.IdentPanic || s.TypedNil {
 		return true
 	}
 	for _, o := range s.Ops {
@@ -170,6 +187,11 @@ func simpleStage(async bool, outcome string) *stageSpec {
 	}
 	if outcome == oNilPlan {
 		return &stageSpec{Async: async, PlanKind: "nil"}
+	}
+	if outcome == oIdentPanic || outcome == oTypedNil {
+		// (the plan is never reached)
+		return &stageSpec{Async: async, PlanKind: "empty-root", Ops: []opSpec{{Outcome: oOK, Parent: -1}},
+			IdentPanic: outcome == oIdentPanic, TypedNil: outcome == oTypedNil}
 	}
 	return &stageSpec{Async: async, PlanKind: "empty-root", Ops: []opSpec{{Outcome: outcome, Parent: -1}}}
 }
@@ -552,4 +574,88 @@ func nilSpec(r *rand.Rand) *treeSpec {
 	t := &treeSpec{Root: root}
 	renumber(t)
 	return t
+}
+
+// ---------------------------------------------------------------------------------------------
+// stages that panic while the pipeline registers them
+
+// regPanics reports whether the stage panics while it is registered (see oIdentPanic, oTypedNil).
+func (s *stageSpec) regPanics() bool { return s.IdentPanic || s.TypedNil }
+
+func (t *treeSpec) hasRegPanic() bool {
+	for _, s := range t.stages() {
+		if s.regPanics() {
+			return true
+		}
+	}
+	return false
+}
+
+// regSystematicSpecs: every tree with up to maxN stages over outs + {Identifier() panics, typed nil stage} that
+// contains at least one stage that panics while it is registered: as root, only child, first/last sibling, grandchild,
+// under inline and pooled parents, next to succeeding and failing stages.
+func regSystematicSpecs(maxN int, outs []string) []*treeSpec {
+	var res []*treeSpec
+	for _, t := range systematicSpecs(maxN, append(append([]string(nil), outs...), oIdentPanic, oTypedNil)) {
+		if t.hasRegPanic() {
+			res = append(res, t)
+		}
+	}
+	return res
+}
+
+// regSpec: a family around one stage that panics while it is registered.  The stage sits at depth 0-3 (root, child,
+// grandchild, great-grandchild) below a chain of ancestors that run inline or on a pool (0/30/60/100 % pooled; some
+// without a plan), at a seeded position among 1-5 siblings that succeed, fail, have no plan or plan stages of their own
+// (the siblings before it are registered - and, when pooled, still unfinished - when the panic is raised, the ones after
+// it are never handed to the pipeline); the ancestors may have further children (uncles) that are busy meanwhile.
+func regSpec(r *rand.Rand) *treeSpec {
+	asyncP := []int{0, 0, 30, 60, 100}[r.Intn(5)]
+	async := func() bool { return r.Intn(100) < asyncP }
+	mk := func(out string) *stageSpec {
+		s := simpleStage(async(), out)
+		if !s.Async && r.Intn(20) == 0 {
+			s.NilCtx = true
+		}
+		if out == oOK && r.Intn(3) == 0 {
+			for k := 1 + r.Intn(2); k > 0; k-- {
+				s.Ops = append(s.Ops, opSpec{Outcome: oOK, Parent: -1})
+			}
+		}
+		return s
+	}
+	bad := mk([]string{oIdentPanic, oTypedNil}[r.Intn(2)])
+	depth := []int{0, 1, 1, 1, 2, 2, 2, 3}[r.Intn(8)]
+	cur := bad
+	for d := 0; d < depth; d++ {
+		parent := mk([]string{oOK, oOK, oOK, oNilPlan}[r.Intn(4)])
+		n := 1 + r.Intn(5)
+		if d > 0 {
+			n = 1 + r.Intn(3)
+		}
+		at := []int{0, n - 1, r.Intn(n)}[r.Intn(3)]
+		for i := 0; i < n; i++ {
+			if i == at {
+				parent.Children = append(parent.Children, cur)
+				continue
+			}
+			c := mk([]string{oOK, oOK, oOK, oErr, oNilPlan, oNFIgnored, oPanicStr}[r.Intn(7)])
+			if !isFailOutcome(c.Ops0()) && r.Intn(4) == 0 {
+				c.Children = append(c.Children, mk([]string{oOK, oErr}[r.Intn(2)]))
+			}
+			parent.Children = append(parent.Children, c)
+		}
+		cur = parent
+	}
+	t := &treeSpec{Root: cur}
+	renumber(t)
+	return t
+}
+
+// Ops0 is the outcome of the stage's first operator ("" without a plan).
+func (s *stageSpec) Ops0() string {
+	if len(s.Ops) == 0 {
+		return oNilPlan
+	}
+	return s.Ops[0].Outcome
 }
